@@ -886,6 +886,96 @@ static void case_transform3(vf_rng *r)
 	vf_sample("%s", desc);
 }
 
+/* --------------------------------- helper points of cut / trimmed segments */
+/*
+ * A transformation that fills the polyline points with the library template
+ * mpt::apply<point<double>, double>() (x from dimension 0, y from dimension 1).
+ * The point stored for the out-of-range end of a cut / trimmed segment is the
+ * place where the line crosses the visible box: per coordinate
+ * v_out + t (v_in - v_out) with t the true crossing fraction, within 2/65536 of
+ * the segment's extent; all other points are the raw values.
+ */
+class RTA : public RT
+{
+public:
+	RTA() : RT(2) { }
+	bool apply(unsigned dim, const mpt::linepart &pt, mpt::point<double> *dest, const double *from) const override
+	{
+		vf_count("transform::apply (library template)", 1);
+		mpt::apply<mpt::point<double>, double>(dest, pt, from, dim ? mpt::point<double>(0, 1) : mpt::point<double>(1, 0));
+		return true;
+	}
+	mpt::point<double> zero() const override { return mpt::point<double>(0, 0); }
+};
+static long double crossing_nd(const double *const *v, size_t out, size_t in, const double (*rg)[2])
+{
+	long double t = 0;
+	for (int d = 0; d < 2; d++) {
+		double o = v[d][out];
+		if (o >= rg[d][0] && o <= rg[d][1]) continue;
+		long double b = o < rg[d][0] ? rg[d][0] : rg[d][1];
+		long double c = (b - o) / ((long double) v[d][in] - o);
+		if (c > t) t = c;
+	}
+	return t;
+}
+static void case_helper_points(vf_rng *r)
+{
+	static const double ranges[][2] = { { 0, 1 }, { 0, 10 }, { -5, -2 }, { 2, 3 } };
+	size_t n = 2 + vf_below(r, 10);
+	double rg[2][2], *v[2];
+	char desc[600];
+	size_t l = snprintf(desc, sizeof(desc), "helper points n=%zu:", n);
+	RTA tr;
+	for (int d = 0; d < 2; d++) {
+		const double *c = ranges[vf_below(r, 4)];
+		rg[d][0] = c[0]; rg[d][1] = c[1];
+		tr.set(d, c[0], c[1]);
+		v[d] = static_cast<double *>(vf_xalloc(n * sizeof(double)));
+		for (size_t i = 0; i < n; i++) {
+			double w = c[1] - c[0], u = vf_unit(r);
+			v[d][i] = vf_below(r, 10) < (d ? 8u : 6u) ? c[0] + w * u : vf_chance(r, 1, 2) ? c[0] - w * (0.05 + 2 * u) : c[1] + w * (0.05 + 2 * u);
+		}
+		vf_fp(v[d], n * sizeof(double)); vf_fp(rg[d], sizeof(rg[d]));
+		if (l + 60 < sizeof(desc)) l += snprintf(desc + l, sizeof(desc) - l, " dim %d [%g,%g]:", d, c[0], c[1]);
+		for (size_t i = 0; i < n && l + 30 < sizeof(desc); i++) l += snprintf(desc + l, sizeof(desc) - l, " %.17g", v[d][i]);
+	}
+	vf_log("%s", desc);
+	if (nd_interesting(2, n, v, rg)) vf_nontrivial();
+	mpt::value_store st[2];
+	if (!st[0].set(mpt::span<const double>(v[0], n)) || !st[1].set(mpt::span<const double>(v[1], n))) vf_inconclusive("value_store::set refused");
+	mpt::polyline pl;
+	vf_at("polyline::set");
+	pl.set(tr, mpt::span<const mpt::value_store>(st, 2));
+	vf_count("polyline::set", 1);
+	const mpt::polyline::point *pts = pl.points().begin();
+	size_t o = 0, uo = 0;
+	for (auto &e : pl.parts()) {
+		if (vf_logging) vf_log("  part {raw=%u usr=%u cut=%u trim=%u}", e.raw, e.usr, e._cut, e._trim);
+		for (size_t i = 0; i < e.usr; i++) {
+			const mpt::polyline::point &q = pts[uo + i];
+			bool head = !i && e._cut, tail = i + 1 == e.usr && e._trim && e.usr >= 2;
+			if (head && tail) continue;
+			if (!head && !tail) {
+				VF_CHECK(q.x == v[0][o + i] && q.y == v[1][o + i], "cxx:apply:point-value", "%s: drawn point %zu of the part at %zu is (%.17g,%.17g), input (%.17g,%.17g)", desc, i, o, q.x, q.y, v[0][o + i], v[1][o + i]);
+				continue;
+			}
+			size_t out = o + i, in = head ? out + 1 : out - 1;
+			long double t = crossing_nd(v, out, in, rg);
+			for (int d = 0; d < 2; d++) {
+				long double want = v[d][out] + t * ((long double) v[d][in] - v[d][out]), got = d ? q.y : q.x;
+				long double tol = 2.0L / 65536 * fabsl((long double) v[d][in] - v[d][out]) + 1e-12L * (fabsl(want) + 1);
+				if (fabsl(got - want) > tol && !vf_known(head ? "cxx:apply:cut-helper-point" : "cxx:apply:trim-helper-point"))
+					vf_fail(head ? "cxx:apply:cut-helper-point" : "cxx:apply:trim-helper-point", "%s: part at %zu {usr=%u cut=%u trim=%u}: %s helper point has coordinate %d = %.12Lg, the line from %.17g to %.17g crosses the visible box at %.12Lg (fraction %.9Lf)", desc, o, e.usr, e._cut, e._trim, head ? "start" : "end", d, got, v[d][out], v[d][in], want, t);
+			}
+			vf_count(head ? "monitor:cut-helper-points" : "monitor:trim-helper-points", 1);
+		}
+		o += e.raw; uo += e.usr;
+	}
+	vf_xfree(v[0], n * sizeof(double)); vf_xfree(v[1], n * sizeof(double));
+	vf_sample("%s", desc);
+}
+
 /* ----------------------------------------------------------------- entry */
 static uint64_t n_a1() { return vf_thorough ? 400000 : 40000; }
 static uint64_t n_set() { return vf_thorough ? 2000 : 200; }
@@ -897,8 +987,9 @@ static uint64_t n_hist() { return vf_thorough ? 500000 : 40000; }
 static uint64_t n_rhist() { return vf_thorough ? 300000 : 30000; }
 static uint64_t n_frac() { return vf_thorough ? 20000 : 2000; }
 static uint64_t n_t3() { return vf_thorough ? 400000 : 40000; }
+static uint64_t n_help() { return vf_thorough ? 400000 : 40000; }
 
-extern "C" uint64_t vf_cases(void) { return n_a1() + n_set() + n_a2() + n_pl() + nd_ex_count() + n_ndp() + pl2_ex_count() + n_pl2() + norange_count() + n_hist() + n_rhist() + n_frac() + n_t3(); }
+extern "C" uint64_t vf_cases(void) { return n_a1() + n_set() + n_a2() + n_pl() + nd_ex_count() + n_ndp() + pl2_ex_count() + n_pl2() + norange_count() + n_hist() + n_rhist() + n_frac() + n_t3() + n_help(); }
 extern "C" void vf_case(uint64_t idx, vf_rng *r)
 {
 	if (idx < n_a1()) { case_apply1(r); return; }
@@ -924,5 +1015,7 @@ extern "C" void vf_case(uint64_t idx, vf_rng *r)
 	if (idx < n_rhist()) { case_range_history(r); return; }
 	idx -= n_rhist();
 	if (idx < n_frac()) { case_fraction_setters(idx, r); return; }
-	case_transform3(r);
+	idx -= n_frac();
+	if (idx < n_t3()) { case_transform3(r); return; }
+	case_helper_points(r);
 }
